@@ -525,12 +525,20 @@ def c17_inter_eps(fam: int, m: int, c: C3, perm: int, optim: int, shape: int, ng
     sh = enc.pick(shape, 5)
     gn = pick_bin(ng, NG_MAX + 1)
     raw = (fm, mm, cc, pi, op, sh, gn, sum(cc) % gn)
+    if sh in (2, 3) and any(r[0] == "dup" and r[1] == r[2] == r[3] for r in rules):
+        # X -> X X against an automaton with a cycle: the library's product construction runs for minutes
+        # (253 s natively for S -> a, S -> S S and the a+ automaton); outside the claim, as in c17_inter
+        return chx.assumed_away("c17_inter_eps")
     chx.enter("c17_inter_eps", raw)
     ordered = [rules[i] for i in order]
     _STUB.order = None
     edges, st, fi = EPS_SHAPES[sh]
     fa = build_enfa(edges, st, fi)
-    obs = chx.guarded(_run_inter, ordered, op, fa)
+    # every value is concrete here (table-decoded): the product construction and its emptiness test run natively.
+    # Under the tracer the same call costs 30x and some rule pairs (S -> S S with an epsilon back edge) take more
+    # than the shard time-out without exploring any further path.
+    with chx.NT():
+        obs = chx.guarded(_run_inter, ordered, op, fa)
     return chx.judge("C17", "c17_inter_eps", raw, (rules, order, op, sh), obs, _inter_eps_oracle,
                      realize_obs=False)
 
@@ -791,7 +799,13 @@ CONDS = [
                    "trailing epsilon move; a+ through an epsilon back edge), given as EpsilonNFA: "
                    "intersection(..).is_empty() and bool() against the O-IG product",
           "thorough": "also the automaton of a a*"},
-         FUNCS_INTER, "non-trivial grammar", stubs=[], assumptions=ASSUME, per_path_timeout=600.0,
+         FUNCS_INTER, "non-trivial grammar", stubs=[],
+         assumptions=ASSUME + ["c17_inter_eps: the inputs are chosen by the solver through the table decoding; the "
+                               "library call itself (intersection, is_empty, bool) runs natively on the decoded "
+                               "concrete input (the tracer made single inputs exceed the shard time-out)",
+                               "c17_inter_eps: rule lists with a self-duplication X -> X X are left out for the two "
+                               "automata with a cycle (run time of the library: minutes per input)"],
+         per_path_timeout=600.0,
          shard_timeout={"quick": 1500, "thorough": 6000}),
     Cond("C17", c17_dup, lambda tier: product_pins(c2=[0, 1, 2, 3], dd=[0, 1, 2, 3, 4],
                                                    optim=[0] if tier == "quick" else [0, 3, 6, 7]),
